@@ -7,15 +7,28 @@ follow the shape of the Python expression.  A proof that passes them positionall
 names a generated exponent literally (`Real.rpow_pos_of_pos ht (((-p.b) - (p.geometry - 1)) - 1)`) breaks on a
 harmless rewrite.  The tactics below never look at the shape:
 
-* `epv_hydro_side`            discharges one side condition from the hypotheses in context (sign facts about the
-                        atoms: `0 < r`, `0 < 1 - t`, `p.rho0 ≠ 0`, …) by `assumption`/`positivity`/`linarith`;
-* `epv_hydro_rw_derivs [c₁, c₂, …]`   for each certificate `cᵢ` (applied to `p r t` only) rewrites `deriv (fun …) x`
-                        with the certified derivative, proving whatever side conditions `cᵢ` has by `epv_hydro_side`;
-* `epv_hydro_cert c`          closes a `HasDerivAt` goal the same way;
-* `epv_hydro_rpow_pos`        adds `0 < x ^ e` to the context for every real power occurring in the goal (proved by
-                        `positivity` from the sign facts in context) — replaces literal `Real.rpow_pos_of_pos h <exponent>`;
-* `epv_hydro_gen_rpow`        the same, then generalises every (outermost) real power to a fresh positive atom, so that
-                        `field_simp` cannot merge powers — replaces literal `generalize (1 - t) ^ <exponent> = q`.
+* `epv_hydro_side`        one side condition / one `WellDefined` conjunct from the sign facts in context (`0 < r`,
+                          `0 < 1 - t`, `p.rho0 ≠ 0`, …): assumption, positivity, linear arithmetic over normalised
+                          monomials (`τ ^ 2 - t ^ 2` vs `τ * τ - t * t`), a hypothesis about the same quantity written
+                          differently (`epv_hydro_ne_hyps`), products / quotients / powers factor by factor;
+* `epv_hydro_rw_derivs [c₁, c₂, …]`  for each certificate `cᵢ` (applied to `p r t` only) rewrites `deriv (fun …) x` with the
+                          certified derivative, proving whatever side conditions `cᵢ` has by `epv_hydro_side`;
+  `epv_hydro_cert c` closes a `HasDerivAt` goal the same way, `epv_hydro_have_cert h : c` names the fact;
+* `epv_hydro_pos_facts`, `epv_hydro_rpow_pos`, `epv_hydro_den_facts`, `epv_hydro_facts`  add to the context `0 < a - b`,
+                          `0 < x` (bases), `0 < x ^ e`, `d ≠ 0` (denominators) for the goal's *own* subterms — replace
+                          literal `Real.rpow_pos_of_pos h <exponent>`, `hx.ne'`;
+* `epv_hydro_gen_rpow`    then generalises every real power to a fresh positive atom, so that `field_simp` cannot merge
+                          powers — replaces literal `generalize (1 - t) ^ <exponent> = q`;
+* `epv_hydro_field_simp`  = the facts + `field_simp (disch := epv_hydro_disch)`: whatever form `field_simp` gives a
+                          denominator, the discharger reduces it to the hypotheses (default transparency: `field_simp`
+                          calls dischargers with reducible transparency, under which `intro`/`linarith` misbehave);
+* `epv_hydro_split h`     every conjunct of `h` (an unfolded generated `WellDefined`) and every factor of a product `h` says
+                          is non-zero becomes a hypothesis — replaces positional `obtain ⟨h1, …, h10⟩ := hwd`;
+* `epv_hydro_rpow_unify`  makes real powers that agree up to ring / field normalisation of base and exponent syntactically
+                          equal (also `b ^ (-e)` ↦ `(b ^ e)⁻¹`), so that `ring` sees one atom;
+* `epv_hydro_closed`      a generated leaf expression equals its documented closed form (used in `Lemmas/Bridge/*`);
+* `epv_hydro_via_atoms P R`  tree-level identity between returned fields with two of them treated as atoms (the generator
+                          prints a shared sub-expression identically everywhere): `e = p / ρ / (γ-1)` however it is coded.
 -/
 import EPV.Tactics
 import EPV.Robust
